@@ -6,7 +6,7 @@ From Coq Require Import NArith ZArith List Uint63 Bool.
 From Coq.Strings Require Import Byte.
 From LOF Require Export Corr.Common Model.Build.
 From LOF Require Export Corr.Pkt.   (* the record kinds of package protocol: [prec], [model_rt] *)
-From LOF Require Import Base.Bytes Base.Res Model.Wire Model.Proto.
+From LOF Require Import Base.Bytes Base.Res Model.Wire Model.Proto Model.BuildSw Proofs.HelloBaseP.
 Import ListNotations.
 Open Scope N_scope.
 
@@ -14,7 +14,8 @@ Inductive erec :=
 | EMsg (xid : N) (m : mrec) | EAct (a : arec) | EMf (f : mfrec) | EInstr (i : irec)
 | EBucket (b : brec) | EMatch (fs : list mfrec)
 | EPkt (first : list byte)    (* an Ethernet frame, given by its first encoding (package protocol has no recipe model) *)
-| ERec (p : prec).            (* a value of a record kind of package protocol (Model/Proto2.v) *)
+| ERec (p : prec)             (* a value of a record kind of package protocol (Model/Proto2.v) *)
+| EHello (xid : N) (es : list (list N)).   (* a hello whose element list was assigned by hand: version bitmaps *)
 
 Definition model_of (e : erec) : tree :=
   match e with
@@ -22,6 +23,7 @@ Definition model_of (e : erec) : tree :=
   | EBucket b => build_b b | EMatch fs => build_match fs
   | EPkt b => match dec_eth b with Ok t => t | _ => T KRaw [VB b] [] end
   | ERec _ => T KRaw [VB []] []      (* not used: record kinds are replayed by [replay_rec] *)
+  | EHello x es => hello_tree x es
   end.
 
 Fixpoint bytes_eqb (a b : list byte) : bool :=
@@ -116,17 +118,19 @@ Fixpoint type_code (m : mrec) : N :=
   | MGroupMod _ _ _ _ => 15 | MPacketOut _ _ _ _ => 13 | MPortMod _ _ _ _ _ => 16 | MMultipart _ _ _ => 18
   | MSetControllerID _ | MTlvTableMod _ _ | MTlvTableReq | MBundleCtrl _ _ _ | MBundleAdd _ _ _ _ => 4
   end.
-Definition oracle01 (c : caseE) : bool :=
-  match c with
-  | Enc (EMsg xid m) rs hs kids =>
+Definition framed (code : N) (rs : list obs) : bool :=
     no_panic rs &&
     match first_bytes rs with
     | Some ((v :: ty :: l1 :: l0 :: _) as b) =>
-      N.eqb (b2n v) 4 && N.eqb (b2n ty) (type_code m)
+      N.eqb (b2n v) 4 && N.eqb (b2n ty) code
       && N.eqb (b2n l1 * 256 + b2n l0) (N.of_nat (length b))
       && forallb (fun o => match o with OLen _ n => N.eqb (n_of n) (N.of_nat (length b)) | OBytes _ _ => true end) rs
     | _ => false
-    end
+    end.
+Definition oracle01 (c : caseE) : bool :=
+  match c with
+  | Enc (EMsg xid m) rs hs kids => framed (type_code m) rs
+  | Enc (EHello _ _) rs hs kids => framed 0 rs
   | _ => true
   end.
 Definition check01 := check_with oracle01.
@@ -178,7 +182,7 @@ Fixpoint tree_eqb (a b : tree) : bool :=
 Definition spec_of (e : erec) (b : list byte) : option tree :=
   let whole (r : option (tree * list byte)) := match r with Some (t, []) => Some t | _ => None end in
   match e with
-  | EMsg _ _ => spec_decode b
+  | EMsg _ _ | EHello _ _ => spec_decode b
   | EAct _ => whole (sdec_action (S (length b)) b)
   | EMf _ => whole (sdec_oxm b)
   | EInstr _ => whole (sdec_instr b)
@@ -226,7 +230,7 @@ Definition check03 := verdict03.
 
 (* the hypothesis of the general theorems of C02 / C03 (Proofs/WalkMsgP.v), evaluated on the
    generated recipes: reported in the evidence as the share of cases the theorem speaks about *)
-From LOF Require Import Proofs.WalkAllP Proofs.WalkMsgP.
+From LOF Require Import Proofs.WalkAllP Proofs.WalkMsgP Proofs.ParseSwHelloP.
 Definition thm_hyp (c : caseE) : bool :=
   match c with
   | Enc e _ _ _ =>
@@ -234,6 +238,7 @@ Definition thm_hyp (c : caseE) : bool :=
     | EMsg x m => msg_ok m && (x <? 4294967296)%N
     | EAct a => act_ok a | EMf f => mf_ok f | EInstr i => instr_ok i | EBucket b => bucket_ok b | EMatch fs => match_ok fs
     | EPkt _ | ERec _ => false
+    | EHello x es => hello_ok (map HBitmap es) && (x <? 4294967296)%N
     end
   end.
 Definition count_hyp {C} (p : C -> bool) (cs : list (int * C)) : nat * nat :=
